@@ -12,7 +12,7 @@ chains, reorganisations of any depth, invalid blocks; `flushReq` /
 connecting) is C03's guarantee, an explicit hypothesis.
 Pruning is not part of the model (see meta/C04.json).
 -/
-import BV.C04.Lemmas8
+import BV.C04.Compose
 import BV.Generated.C04
 namespace BV.C04
 
@@ -235,6 +235,69 @@ example : ∃ nd0 : Node FreeAlg, recover ⟨true, none⟩ (Image.empty FreeAlg)
     Good (Image.empty FreeAlg) nd0 := by
   obtain ⟨nd0, r, g, _⟩ := recover_empty_spec (A := FreeAlg) ⟨true, none⟩
   exact ⟨nd0, r, g⟩
+
+/-! ### Composition with C03 (unspent-output fold, undo) and C05 (prefix durability) -/
+
+/-- C03 discharges the `Lawful` hypothesis: for the algebra built from C03's protocol
+definitions (`applyBlock`, `journalOf`, `undoBlock`, the executable check `blockOk`),
+"disconnecting with the spend journal undoes connecting" is C03's theorem
+`undo_apply_id` (`undoBlock_applyBlock`) together with `blockOk_valid`. -/
+theorem c03_lawful_instance : C03Alg.Lawful := c03_lawful
+
+/-- The fold the C04 theorems talk about IS C03's Spec fold: for a chain whose blocks
+C03's check accepts on top of their predecessors, the set component of
+`utxoOf C03Alg chain` equals `BV.C03.Spec.utxoOf` of the corresponding C03 blocks
+(genesis side first). -/
+theorem fold_is_c03_fold (c : Chain) (h : ChainOk c) :
+    (utxoOf C03Alg c).set = BV.C03.Spec.utxoOf (c.reverse.map toBlock) :=
+  c03_fold_spec c h
+
+/-- `prefix_recovers` on C03's definitions, WITHOUT the `Lawful` hypothesis. -/
+theorem prefix_recovers_c03 (cfg cfg' : Cfg) (hp : cfg.prune = none) (ops : List Op)
+    (nd0 : Node C03Alg) (h0 : recover cfg (Image.empty C03Alg) = .ok nd0) (k : Nat) :
+    ∃ rn, recover cfg' (replay (Image.empty C03Alg) ((runOps cfg nd0 ops).log.take k)) = .ok rn ∧
+      RecoverOk C03Alg (activeTips ((runOps cfg nd0 ops).log.take k)) (rowKeys ((runOps cfg nd0 ops).log.take k))
+        ⟨rn.tip, rn.utxo, keys rn.index⟩ :=
+  prefix_recovers C03Alg c03_lawful cfg cfg' hp ops nd0 h0 k
+
+/-- C05 supplies the prefix premise (`BV.C05.prefix_durable`, instantiated with C04's
+`apply`): push the node's commit list through ffldb's write path — every commit taking
+the cache or the flush path, explicit flushes in between (`evs`, any interleaving whose
+commits are the node's log) — and let a crash strike between ANY two I/O micro-steps.
+The image on disk is `replay` of the first `d.nDisk` commits. -/
+theorem crash_image_prefix (A : UtxoAlg) (evs : List (BV.C05.DEvent (Commit A)))
+    (d : BV.C05.DState (Image A) (Commit A))
+    (hc : BV.C05.CrashAt apply (BV.C05.init (Image.empty A)) evs d) :
+    d.nDisk ≤ (BV.C05.commitsOf evs).length ∧
+    BV.C05.crashImage d = replay (Image.empty A) ((BV.C05.commitsOf evs).take d.nDisk) :=
+  crash_image_is_prefix evs d hc
+
+/-- End to end across C03, C04 and C05: for every workload, every way ffldb's cache
+schedules the node's commits and every crash point between two I/O steps, reopening
+the crash image succeeds on a previously-active tip with utxo = C03's fold and an
+index that knows every committed row.  Hypotheses left: pruning off; and what C05's
+durability model assumes — a goleveldb transaction commit is atomic and durable and
+synced block data is on disk. -/
+theorem crash_recovers_composed (cfg cfg' : Cfg) (hp : cfg.prune = none) (ops : List Op)
+    (nd0 : Node C03Alg) (h0 : recover cfg (Image.empty C03Alg) = .ok nd0)
+    (evs : List (BV.C05.DEvent (Commit C03Alg)))
+    (hev : BV.C05.commitsOf evs = (runOps cfg nd0 ops).log)
+    (d : BV.C05.DState (Image C03Alg) (Commit C03Alg))
+    (hc : BV.C05.CrashAt apply (BV.C05.init (Image.empty C03Alg)) evs d) :
+    ∃ rn, recover cfg' (BV.C05.crashImage d) = .ok rn ∧
+      RecoverOk C03Alg (activeTips ((runOps cfg nd0 ops).log.take d.nDisk))
+        (rowKeys ((runOps cfg nd0 ops).log.take d.nDisk)) ⟨rn.tip, rn.utxo, keys rn.index⟩ := by
+  obtain ⟨_, himg⟩ := crash_image_is_prefix evs d hc
+  rw [himg, hev]
+  exact prefix_recovers_c03 cfg cfg' hp ops nd0 h0 d.nDisk
+
+/-- The schedule hypothesis is satisfiable for every commit list (e.g. every commit on
+the flush path). -/
+example (A : UtxoAlg) (log : List (Commit A)) :
+    BV.C05.commitsOf (log.map (fun c => BV.C05.DEvent.commit c true)) = log := by
+  induction log with
+  | nil => rfl
+  | cons c r ih => simp only [List.map_cons, BV.C05.commitsOf, ih]
 
 /-! ### pins -/
 
